@@ -120,12 +120,16 @@ fn program_with(code: &[serde_json::Value]) -> Option<Program> {
 fn random_op(rng: &mut Rng, pc: usize, len: usize) -> serde_json::Value {
     let push = |v: CelValue| json!({"Push": serde_json::to_value(&v).unwrap()});
     match rng.below(30) {
-        0..=7 => push(match rng.below(6) {
+        0..=7 => push(match rng.below(10) {
             0 => 1.into(),
             1 => true.into(),
             2 => "s".into(),
             3 => CelValue::from_ident("x"),
             4 => CelValue::from_list(vec![1.into()]),
+            // conditions that are failures: an unbound name, a failure constant, false / zero for the other branch
+            5 | 6 => CelValue::from_ident("unbound_name"),
+            7 => CelValue::from_err(rscel::CelError::value("injected failure")),
+            8 => false.into(),
             _ => CelValue::from_null(),
         }),
         8 => json!("Pop"),
@@ -135,7 +139,7 @@ fn random_op(rng: &mut Rng, pc: usize, len: usize) -> serde_json::Value {
         12 => json!("And"),
         13 => json!("Not"),
         14 => json!("Neg"),
-        15 => json!("Add"),
+        15 => json!(if rng.chance(1, 2) { "Add" } else { "Div" }),
         16 => json!("Eq"),
         17 => json!("In"),
         18 => json!("Index"),
@@ -200,7 +204,35 @@ pub fn run(ctx: &mut Ctx) {
     let ni = ctx.n(100_000, 1_000_000);
     ctx.stage("injected", ni, true, |_idx, rng, rep| {
         let len = 1 + rng.below(12);
-        let code: Vec<serde_json::Value> = (0..len).map(|pc| random_op(rng, pc, len)).collect();
+        let code: Vec<serde_json::Value> = if rng.chance(1, 3) {
+            // directed: a condition of every kind (true, false, truthy, falsy, unbound, failure) in front of a conditional
+            // jump of every reach, then filler - each (condition, sense, distance) decides alone whether the jump is legal
+            let push = |v: CelValue| json!({"Push": serde_json::to_value(&v).unwrap()});
+            let cond = match rng.below(9) {
+                0 => true.into(),
+                1 => false.into(),
+                2 => 1.into(),
+                3 => 0.into(),
+                4 | 5 => CelValue::from_ident("unbound_name"),
+                6 => CelValue::from_err(rscel::CelError::value("injected failure")),
+                7 => CelValue::from_null(),
+                _ => "s".into(),
+            };
+            let filler = rng.below(4);
+            let total = 2 + filler;
+            let mut c = vec![push(cond)];
+            c.push(json!({"JmpCond": {"when": if rng.chance(1, 2) { "True" } else { "False" }, "dist": jump_dist(rng, 1, total)}}));
+            for k in 0..filler {
+                c.push(push(CelValue::from_int(40 + k as i64)));
+                if k > 0 {
+                    c.push(json!("Pop"));
+                }
+            }
+            rep.count("injected_directed_condjump");
+            c
+        } else {
+            (0..len).map(|pc| random_op(rng, pc, len)).collect()
+        };
         let shown = serde_json::Value::Array(code.clone()).to_string();
         let prog = match program_with(&code) {
             Some(p) => p,
@@ -220,7 +252,7 @@ pub fn run(ctx: &mut Ctx) {
             rep.viol("vm-bounds|panic", &format!("{} panicked: {}", shown, out.show()), json!({"bytecode": shown}));
         }
         for p in &tr.problems {
-            if p.contains("outside block") || p.contains("control moved") {
+            if p.contains("outside block") || p.contains("control moved") || p.contains("jump out of range accepted") {
                 rep.viol("vm-bounds|fetch-outside", &format!("{}: {}", shown, p), json!({"bytecode": shown}));
             }
         }
